@@ -10,7 +10,7 @@ cancels symbolically (AInt.negof).
 from fractions import Fraction
 
 from aval import AInt, AAgg, AFloat, ARef, mask, to_signed
-from interp import site_key
+from interp import site_key, short_fn, entry_label
 import aval
 from interp import Interp
 import spec as S
@@ -130,7 +130,7 @@ def check_conversion(ctx, prog, rule, label, path, src, kind, dst, gargs=None, s
                     if out.kind == 'panic' and site:
                         ctx.finding('PANIC', *site_key(site),
                                     '%s at %s: reached on regime cell %s of %s; the operation does not return in an overflow-checked build' % (out.value, out.where, cname, label),
-                                    {'function': path})
+                                    {'function': path}, alt=('PANIC@', entry_label(label), site_key(site)[1]))
                     else:
                         ctx.finding(rule, label, 'cell=' + cname.replace(' ', ''), 'on regime cell %s the conversion does not return: %s %s at %s' % (cname, out.kind, out.value, out.where),
                                     {'function': path})
